@@ -105,7 +105,7 @@ def _one(job):
 
 def run(prop, tier, base, variants, rule, n_gen_quick, n_gen_thorough, cfgs, stat_keys=(), requires=(),
         kinds=None, point_sweeps=0, point_cfg='dbg', point_extra=(), timeout=60, monitor_filter=None,
-        include_fixtures=True, extra_sources=None, post=None):
+        include_fixtures=True, extra_sources=None, post=None, skip_baseline_crash=True):
     chk = vlib.Check(prop, tier)
     n_gen = int(os.environ.get('VERIF_N', '0')) or (n_gen_quick if tier == 'quick' else n_gen_thorough)
     try:
@@ -117,7 +117,7 @@ def run(prop, tier, base, variants, rule, n_gen_quick, n_gen_thorough, cfgs, sta
     kinds = available_kinds(kinds or GEN_KINDS)
     _CTX.update({'bins': bins, 'base': base, 'variants': variants, 'timeout': timeout, 'stat_keys': stat_keys,
                  'point_sweeps': point_sweeps, 'point_cfg': point_cfg, 'point_extra': list(point_extra),
-                 'seed': chk.seed,
+                 'seed': chk.seed, 'skip_baseline_crash': skip_baseline_crash,
                  'monitor_filter': monitor_filter or (lambda v: True)})
     chk.run_witnesses(bins[cfgs[0]])
     jobs = []
